@@ -80,12 +80,36 @@ def generic_check(pid, level, tier, seed, rule, streams, coq=True, checker_cmd=N
     ok, msg = C.regen_tables()
     if not ok:
         ck.broken.append("regeneration of coq/gen/Tables_gen.v failed: " + msg[-500:])
+    ok, msg = C.regen_sites()
+    if not ok:
+        ck.broken.append("source-site recogniser failed: " + msg[-500:])
+    elif "NOT RECOGNISED: site_%s_" % pid in msg:
+        ck.notes.append("source sites of the model no longer recognised: " + " ".join(l for l in msg.splitlines() if ("site_%s_" % pid) in l))
     if coq:
         res = C.coq_property(pid)
         ck.add_coq(res)
         if not res["ok"]:
             ck.broken.append("Coq obligations of properties/%s.v no longer check: %s" % (pid, res["output"][-900:]))
     run_streams(ck, streams, tier, seed)
+    if ck.broken and not ck.violations and tier == "quick":
+        # an obligation or the correspondence broke: search harder for a concrete failing input
+        # (monitor streams only, thorough-sized, bounded time)
+        esc = []
+        for st in streams:
+            if st["kind"] in ("monitor", "oracle"):
+                e = dict(st)
+                e["name"] = st["name"] + "_escalated"
+                e["shards"] = (lambda f: (lambda t: min(8, f("thorough"))))(st.get("shards", lambda t: 1))
+                e["args"] = (lambda f: (lambda t, s, sh, path: f("thorough", s + 7919, sh, path)))(st["args"])
+                e["timeout"] = 240
+                e["oracle_timeout"] = 240
+                e["optional"] = True
+                esc.append(e)
+        if esc:
+            nb = len(ck.broken)
+            run_streams(ck, esc, "thorough", seed)
+            # a timed-out escalation run is not itself a broken obligation
+            ck.broken = ck.broken[:nb] + [b for b in ck.broken[nb:] if "_escalated" not in b]
     if extra:
         extra(ck, tier, seed)
     if coq and coqchk and tier == "thorough":
